@@ -5,6 +5,8 @@ import (
 	"errors"
 	"fmt"
 	"go/format"
+	"go/scanner"
+	"go/token"
 	"io"
 	"strings"
 	"unicode"
@@ -1266,7 +1268,37 @@ func (se StringExpression) Write(w io.Writer, indent int) error {
 	}
 	// The expression can include the padding that was found inside the braces, writing it out
 	// as well would make the padding grow every time the file is formatted.
-	return writeIndent(w, indent, `{ `, strings.TrimSpace(se.Expression.Value), ` }`)
+	value := strings.TrimSpace(se.Expression.Value)
+	if endsWithLineComment(value) {
+		// A closing brace on the same line would become part of the comment.
+		if err := writeIndent(w, indent, `{ `, value, "\n"); err != nil {
+			return err
+		}
+		return writeIndent(w, indent, `}`)
+	}
+	return writeIndent(w, indent, `{ `, value, ` }`)
+}
+
+// endsWithLineComment reports whether the last token of the Go code is a // comment.
+func endsWithLineComment(src string) bool {
+	var s scanner.Scanner
+	fset := token.NewFileSet()
+	s.Init(fset.AddFile("", fset.Base(), len(src)), []byte(src), nil, scanner.ScanComments)
+	var last string
+	for {
+		_, tok, lit := s.Scan()
+		if tok == token.EOF {
+			break
+		}
+		if tok == token.SEMICOLON && lit == "\n" {
+			continue
+		}
+		last = ""
+		if tok == token.COMMENT {
+			last = lit
+		}
+	}
+	return strings.HasPrefix(last, "//")
 }
 
 // ScriptTemplate is a script block.
